@@ -64,6 +64,13 @@ def _raised_by_harness(e):
     return last.tb_frame.f_code.co_filename.startswith(_VERIF_ROOT)
 
 
+def reraise_if_harness(e):
+    """call inside `except Exception as e` of a harness: a failure of the proxies / harness
+    itself must never be mistaken for a rejection by the code under analysis"""
+    if _raised_by_harness(e):
+        raise HarnessBug(f"{type(e).__name__}: {e}\n{traceback.format_exc(limit=8)}") from e
+
+
 class Counterexample(BaseException):
     def __init__(self, label, model_values, detail=None):
         super().__init__(label)
